@@ -446,7 +446,9 @@ def run(ctx: Ctx):
         "over sorted(annotations) and pieces are appended at the tail.  For the source-text clauses only three structural "
         "necessary conditions are decided: R5 the default diff engine is called for the minimal character diff (timelimit=0, "
         "checklines=False, cleanup='No'), R6 SpanUpdater.update is a pure function of (offset, bisect side), R7 starts are "
-        "translated with bisect_right and ends with bisect_left, R8 the range index is clamped at 0.  The alignment itself (monotonicity, range, exact enclosure) is "
+        "translated with bisect_right and ends with bisect_left, R8 the range index is clamped at 0, and R12 the *monotonicity* clause: the range table is "
+        "append-only and every path of the fold over the diff steps preserves `all values handed out so far <= offset + delta` (linear arithmetic over the "
+        "two counters and an arbitrary step amount >= 0), so the translation is monotone for every sequence of steps.  Exact enclosure (the alignment) is "
         "NOT decided: it is a property of values returned by fast_diff_match_patch / difflib and of two bisections over them."
     )
     ctx.trusted = ["the checker (sa/annot.py)", "Python slicing and tuple ordering"]
